@@ -1,4 +1,5 @@
-import TxdbusModel.Proofs.Proto.FdsRun
+import TxdbusModel.Proofs.Proto.FdsHandshake
+import TxdbusModel.Properties.C04
 /-!
 # C20 - file descriptors stay attached to the message that carried them
 
@@ -93,6 +94,62 @@ theorem attribution (A : Auth α) (info : Bytes → MsgInfo) (ms : List Msg) (ev
   rw [hlen]
   exact ⟨hgood, inv'.hbytes, framed_noFrame _ inv'.hframed, inv'.hfds⟩
 
+/-- **C20.2 on a connection that starts in line mode**  The descriptor queue exists from
+`connectionMade` on.  The stream is a handshake (as in C04 `handoff`: lines without CR LF, within the
+limit, the authenticator answering cont ... cont success) followed by the messages `ms`; `evsA` are the
+events before the read that completes the handshake, `read (d1 ++ d2)` is that read (`d1` the end of the
+handshake, `d2` the first message bytes, either may be empty), `evsB` what follows.  Descriptors may
+arrive anywhere (`ConsistentAfter`): before the first read, among the handshake reads, together with
+the final handshake line - as long as those of message `i` are there when its last byte is read.
+Then the conclusion of `attribution` holds for the whole run. -/
+theorem attribution_after_handshake (A : Auth α) (info : Bytes → MsgInfo) (ms : List Msg) (s : St α)
+    (hs : List Bytes) (last : Bytes) (a1 a' : α) (evsA evsB : List Ev) (d1 d2 : Bytes)
+    (hr : Ready s) (ha : s.authenticated = false) (hbuf : s.buffer = []) (hcl : s.closed = false)
+    (hnext : s.nextMsgLen = 0)
+    (hlines : ∀ l ∈ hs ++ [last], Spec.hasCRLF l = false ∧ l.length ≤ Txdbus.Gen.ProtoConst.maxAuthLength)
+    (hrun : authRun A s.auth hs = some a1) (hlast : A.handle a1 last = (a', .success))
+    (hH : bytesOf evsA ++ d1 = Spec.unlines (hs ++ [last]))
+    (hok : ∀ m ∈ ms, Spec.WellFormed m.raw ∧ MsgOK info m)
+    (hc : ConsistentAfter (Spec.unlines (hs ++ [last])).length ms (evsA ++ .read (d1 ++ d2) :: evsB)) :
+    GoodFrom ms (recvRun A info ⟨s, []⟩ (evsA ++ .read (d1 ++ d2) :: evsB)).2 ∧
+    ¬ Spec.hasFrame (recvRun A info ⟨s, []⟩ (evsA ++ .read (d1 ++ d2) :: evsB)).1.st.buffer ∧
+    fdsOf (evsA ++ .read (d1 ++ d2) :: evsB) =
+      fdsUpTo ms (recvRun A info ⟨s, []⟩ (evsA ++ .read (d1 ++ d2) :: evsB)).2.length ++
+        (recvRun A info ⟨s, []⟩ (evsA ++ .read (d1 ++ d2) :: evsB)).1.queue := by
+  -- cut the read that completes the handshake at the end of the handshake
+  have hsplit : recvRun A info ⟨s, []⟩ (evsA ++ .read (d1 ++ d2) :: evsB) =
+      recvRun A info ⟨s, []⟩ ((evsA ++ [.read d1]) ++ .read d2 :: evsB) := by
+    rw [recvRun_append, recvRun_read_split A info _ d1 d2 evsB (recvRun_ready A info ⟨s, []⟩ evsA hr),
+      ← recvRun_append]
+    simp
+  -- the handshake part is quiet and ends in binary mode with an empty buffer
+  have hreads : (readsOf (evsA ++ [.read d1])).flatten = Spec.unlines (hs ++ [last]) ++ [] := by
+    rw [flatten_readsOf, bytesOf_append]; simpa [bytesOf] using hH
+  have hne : readsOf (evsA ++ [.read d1]) ≠ [] := by
+    rw [readsOf_append]; simp [readsOf]
+  have hho := handoff A s hs last [] (readsOf (evsA ++ [.read d1])) a1 a' hr ha hbuf hcl hnext hlines hrun hlast
+    hne hreads
+  have hq := recvRun_quiet A info s [] (evsA ++ [.read d1]) (by rw [hho.2.1, frames_nil])
+  -- the binary part, the descriptors of the handshake phase already queued
+  have hcons := consistentAfter_binary _ ms evsA evsB d1 d2 (by rw [hH]) (fun m hm => (hok m hm).1.1) hc
+  have hfds1 : fdsOf (evsA ++ [.read d1]) = fdsOf evsA := by rw [fdsOf_append]; simp [fdsOf]
+  have inv0 : Inv ms (⟨(run A s (readsOf (evsA ++ [.read d1]))).1, fdsOf evsA⟩ : Recv α)
+      ((fdsOf evsA).map Ev.fd) 0 := by
+    refine ⟨Nat.zero_le _, ?_, ?_, hho.2.2.2.2.2, hho.2.2.2.1⟩
+    · rw [bytesOf_map_fd]
+      show [] = bytesUpTo ms 0 ++ (run A s (readsOf (evsA ++ [.read d1]))).1.buffer
+      rw [hho.2.2.1, frames_nil]; simp [bytesUpTo]
+    · rw [fdsOf_map_fd]; simp [fdsUpTo]
+  obtain ⟨k', _, inv', hlen, hgood⟩ := recv_run_inv A info ms hok (.read d2 :: evsB) _ _ 0 hcons inv0
+  rw [hsplit, recvRun_append, hq]
+  simp only [List.nil_append, hfds1, Nat.sub_zero, List.drop_zero] at hlen hgood inv' ⊢
+  rw [hlen]
+  refine ⟨hgood, framed_noFrame _ inv'.hframed, ?_⟩
+  have := inv'.hfds
+  rw [fdsOf_append, fdsOf_map_fd] at this
+  rw [fdsOf_append]
+  simpa [fdsOf] using this
+
 /-! ## Boundary of the claim (outside the property: a sender that does not follow `sender_layout`) -/
 
 /-- A message that declares no descriptors but carries an `h` argument with index 0 reads the
@@ -165,5 +222,7 @@ open Txdbus.Proto in
 #print axioms resolved_all
 open Txdbus.Proto in
 #print axioms attribution
+open Txdbus.Proto in
+#print axioms attribution_after_handshake
 open Txdbus.Proto in
 #print axioms index_beyond_declared_reaches_later_message
